@@ -8,15 +8,19 @@ P = dict(
     rule='cases: generated programs (0..40 tests, thorough up to 300; setup/body/teardown scripts of marks, passing checks, failing C++-style and C-style checks, '
          'std/foreign exceptions, prints, TEST_EXIT; plugin-reported errors; IGNOREd tests; filters; 1..4 repetitions with repetition-dependent failures), '
          'always including blocks of 12..16 (thorough 25..40) consecutive failing tests; run through a private registry, through CommandLineTestRunner::runAllTestsMain '
-         'and as a forked RUN_ALL_TESTS process, plain and nested inside an outer test; plus the complete table of (setup, body, teardown) outcome triples x 13 consecutive tests. '
+         'and as a forked RUN_ALL_TESTS process, plain and nested inside an outer test; a quarter of the programs in the crash-on-fail configuration (UtestShell::setCrashOnFail() before the run, or -f on the command line) '
+         'with a crash method that returns; plus the complete table of (setup, body, teardown) outcome triples x 13 consecutive tests x {default terminators, crash-on-fail by API, crash-on-fail by -f}. '
          'Non-trivial = program in which at least one phase fails a check or throws; distinct by the sequence of per-test (setup, body, teardown) outcome triples over all repetitions',
     floor=dict(quick=1500, thorough=8000),
     counter_floor=dict(
-        quick=dict(programs_with_failing_run_longer_than_jump_buffer_stack=1500, depth_checks_after_test=50000, process_runs=100, failed_flag_checks=50000, summaries_parsed=5000, runner_returned_zero=50, repetitions_ran_nothing=100),
-        thorough=dict(programs_with_failing_run_longer_than_jump_buffer_stack=8000, programs_with_failing_run_of_25_or_more=5000, depth_checks_after_test=1000000, process_runs=400, runner_returned_zero=300, repetitions_ran_nothing=500),
+        quick=dict(programs_with_failing_run_longer_than_jump_buffer_stack=1500, depth_checks_after_test=50000, process_runs=100, failed_flag_checks=50000, summaries_parsed=5000, runner_returned_zero=50, repetitions_ran_nothing=100,
+                   programs_crash_on_fail_with_a_failing_check=1000, programs_crash_on_fail_with_a_failing_check_in_setup=500, programs_crash_on_fail_set_by_flag_f=300, programs_crash_on_fail_set_by_api=500, crash_hook_calls=20000),
+        thorough=dict(programs_with_failing_run_longer_than_jump_buffer_stack=8000, programs_with_failing_run_of_25_or_more=5000, depth_checks_after_test=1000000, process_runs=400, runner_returned_zero=300, repetitions_ran_nothing=500,
+                      programs_crash_on_fail_with_a_failing_check=5000, programs_crash_on_fail_set_by_flag_f=2000, crash_hook_calls=100000),
     ),
     assumptions=['Gcc platform (setjmp/longjmp jump-buffer stack of UtestPlatform.cpp)', 'rethrowing of unexpected exceptions is switched off (-e) whenever a program throws',
-                 'crash-on-fail (-f), separate-process (-p) and shuffle (-s) runs are outside this check',
+                 'crash-on-fail (-f / UtestShell::setCrashOnFail()) is exercised only with a crash method that returns (UtestShell::setCrashMethod(): trap-and-continue hook); with the default crash method the process aborts at the first failing check by design. When the hook is called is not judged (counted as evidence only)',
+                 'separate-process (-p) and shuffle (-s) runs are outside this check',
                  'the exit status of the forked process is the returned value modulo 256; only the returned value is judged'],
     stall_s=300,
 )
